@@ -191,8 +191,13 @@ Proof.
       * right. repeat split; auto.
       * rewrite TD in X2. destruct X2.
   - (* iv_work_pool_put *)
-    destruct g; try discriminate. destruct (Nat.eqb t (own s) && (nilb (pitems p) || (0 <? pstarted p))); try discriminate.
-    destruct (pstarted p =? 0); inversion H; subst; apply W4o_W4; eapply FR; reflexivity.
+    destruct g; try discriminate. destruct (Nat.eqb t (own s)); try discriminate.
+    destruct (pstarted p =? 0).
+    + destruct (nilb (pitems p)); inversion H; subst.
+      * apply W4o_W4; eapply FR; reflexivity.
+      * (* work queued and no thread: the put starts one *)
+        unfold W4, enter; ssimp. intros q Q _. left. now left.
+    + inversion H; subst; apply W4o_W4; eapply FR; reflexivity.
 Qed.
 
 (* the unregister calls owed by the owner concern a joined thread, unless the pool is being freed *)
@@ -343,13 +348,13 @@ Proof.
     + apply W4_of_needed. unfold needed_wit, evneeded_due, enter; ssimp. intros q Q. inversion Q; subst q.
       cbn [pidle pstarted pmax pshut p_set_items p_set_tail]. repeat split; auto. right. right. now left.
     + lia.
-  - (* iv_work_pool_put: the contract asks for a pool thread *)
+  - (* iv_work_pool_put: without a pool thread it starts one for the queued work *)
     destruct g; try discriminate.
-    destruct (Nat.eqb t (own s) && (nilb (pitems p) || (0 <? pstarted p))) eqn:G; try discriminate.
-    apply andb_true_iff in G. destruct G as (_ & G). apply orb_true_iff in G. destruct G as [G | G].
-    { apply nilb_true in G. contradiction. }
-    apply Z.ltb_lt in G.
-    destruct (pstarted p =? 0) eqn:Z0; [apply Z.eqb_eq in Z0; lia |]. inversion H; subst; clear H.
+    destruct (Nat.eqb t (own s)); try discriminate.
+    destruct (pstarted p =? 0) eqn:Z0.
+    { destruct (nilb (pitems p)) eqn:NI. { apply nilb_true in NI. contradiction. }
+      inversion H; subst. unfold W4, enter; ssimp. intros q Q _. left. now left. }
+    apply Z.eqb_neq in Z0. inversion H; subst; clear H.
     destruct A1b as (B1 & _). destruct (B1 p P) as (S1 & S2 & S3). rewrite TD in S1. cbn in S1.
     destruct (filter_witness (fun w => is_live (wpc_of s w)) (wids s)) as (w & INW & LW). { unfold nlive in S1. lia. }
     destruct (A2 p P w INW LW) as [X | X]. { rewrite N2 in X. destruct X. }
